@@ -80,3 +80,20 @@ def draws(detector, fail=False, **kwargs):
     detector.photon.array = np.random.random(detector.geometry.shape)
     if fail:
         raise ProbeError("probe failure after drawing")
+
+STAMPS = []
+
+
+def stamp(detector, **kwargs):
+    """Writes step-dependent values into every bucket and remembers them (C03 replays)."""
+    import numpy as np
+    probe(detector, **kwargs)
+    i = detector.pipeline_count
+    if i == 0:
+        STAMPS.clear()
+    shape = detector.geometry.shape
+    detector.photon.array = np.full(shape, 10.0 + i)
+    detector.pixel.array = np.full(shape, 20.0 + i)
+    detector.signal.array = np.full(shape, 0.5 + i)
+    detector.image.array = np.full(shape, 30 + i, dtype=np.uint16)
+    STAMPS.append({n: np.array(getattr(detector, n).array) for n in ("photon", "pixel", "signal", "image")})
